@@ -4,7 +4,7 @@ import json
 import os
 
 from vlib import core, cover_inst as ci, cover_coq as cq, cover_bbgen
-from vlib import cover_ccgen
+from vlib import cover_ccgen, cover_enumgen
 from vlib.core import Broken, Mismatch, Failing
 from oracles import cover_brute as brute
 
@@ -36,12 +36,17 @@ def prove(ctx):
     with ctx.coq_lock():
         cover_bbgen.ensure(ctx)
         cover_ccgen.ensure(ctx)
+        cover_enumgen.ensure(ctx)
         ctx.prove('Properties/C10.v', timeout=900)
     ctx.trusted.append(cover_bbgen.TRUSTED)
     ctx.trusted.append(cover_ccgen.TRUSTED)
+    ctx.trusted.append(cover_enumgen.TRUSTED)
     ctx.trusted.append(
-        'tie H: omega/symbolic/cover_enum.py is modelled by hand in '
-        'L5Cover/CoverEnum.v (as repaired by fixes/F2.patch); on every run '
+        'tie H: what remains modelled by hand below the translated '
+        'functions of omega/symbolic/cover_enum.py (L5Cover/CoverEnum.v, as '
+        'repaired by fixes/F2.patch): the lattice formulas of cover.py, '
+        'orthotopes, the meaning of the dd operations and of Python sets; '
+        'on every run '
         'the set of covers returned by the real cover_enum.minimize is '
         'compared, inside Coq, with the verified reference '
         'all_min_covers_ref by the verified checker is_all_min_covers_b '
